@@ -443,7 +443,26 @@ func (s *State) slice(seeds ...*Term) []*Term {
 // checkSat decides PC ∧ extra; on sat the state's model is NOT updated (the merged model is returned).
 func (s *State) checkSat(w *Worker, extra *Term) (int, Model) {
 	conj := append(s.slice(extra), extra)
-	res, m := w.solver.CheckCached(conj)
+	res, m, cached := w.solver.CheckCached2(conj)
+	if !cached {
+		switch res {
+		case ResSat:
+			// every sat answer is validated: the model must satisfy each conjunct under the engine's evaluator
+			for _, c := range conj {
+				if v, ok := m.Eval(c); ok && v != 1 {
+					atomic.AddInt64(&xstats.modelBad, 1)
+					s.eng.noteInconclusive("solver model does not satisfy the query (" + c.String() + ")")
+					break
+				}
+			}
+			atomic.AddInt64(&xstats.modelsValidated, 1)
+		case ResUnsat:
+			// every unsat answer prunes a path: re-decided by the other solvers in the thorough tier
+			if len(w.cross) > 0 {
+				w.crossCheck(conj, res, "branch/assertion query")
+			}
+		}
+	}
 	if res == ResSat {
 		nm := make(Model, len(s.model)+len(m))
 		for k, v := range s.model {
